@@ -134,6 +134,9 @@ func checkWaitingDeadlineArmed(c *Ctx, lf *lockFacts, ex *ssa.Function) {
 					}
 				}
 			}
+			if g.Derived {
+				continue
+			}
 			extra += " [extra condition: " + guardText(g) + "]"
 		}
 		why := ""
@@ -485,6 +488,9 @@ func respOptAppend(h *ssa.Function, msg ssa.Value, at ssa.Instruction) (decision
 			if base[guardKey(g)] {
 				continue // a condition of the whole step (it also guards the pack call)
 			}
+			if g.Derived {
+				continue
+			}
 			extra = guardText(g)
 		}
 		if dec == nil {
@@ -516,21 +522,29 @@ func respOptAppend(h *ssa.Function, msg ssa.Value, at ssa.Instruction) (decision
 // into it (it is header + question + OPT, at most 282 bytes: no truncation needed on any transport).
 func checkFallbackReply(c *Ctx, h *ssa.Function, q ssa.Value, s *packSite, what string) {
 	key := what + "@" + c.P.pos(instrPos(s.call))
-	al, ok := s.msg.(*ssa.Alloc)
-	if !ok {
+	var al ssa.Value
+	setReply, ra := false, false
+	rcode := int64(-1)
+	if a, ok := s.msg.(*ssa.Alloc); ok {
+		al = a
+		for _, r := range referrers(a) {
+			if cl, ok := r.(*ssa.Call); ok && callName(cl) == "(*github.com/miekg/dns.Msg).SetReply" && cl.Call.Args[0] == ssa.Value(a) && cl.Call.Args[1] == q && instrDominates(cl, s.call) {
+				setReply = true
+			}
+		}
+	} else if cl, ok := s.msg.(*ssa.Call); ok {
+		// built by a helper (SetReply + rcode)
+		if qa, rc, okS := synthReplyCall(cl); okS {
+			al, setReply, rcode = cl, qa == q, rc
+		}
+	}
+	if al == nil {
 		c.fail(key, instrPos(s.call), "the reply packed after a pack failure is %s, not a fresh message: it can fail to pack the same way, the client gets no reply", exprStr(s.msg))
 		return
 	}
-	setReply, ra := false, false
-	rcode := int64(-1)
-	for _, r := range referrers(al) {
-		if cl, ok := r.(*ssa.Call); ok && callName(cl) == "(*github.com/miekg/dns.Msg).SetReply" && cl.Call.Args[0] == ssa.Value(al) && cl.Call.Args[1] == q && instrDominates(cl, s.call) {
-			setReply = true
-		}
-	}
 	eachInstr(h, func(in ssa.Instruction) {
 		st, ok := in.(*ssa.Store)
-		if !ok || fieldBase(st.Addr) != ssa.Value(al) || !instrDominates(in, s.call) {
+		if !ok || fieldBase(st.Addr) != al || !instrDominates(in, s.call) {
 			return
 		}
 		switch k, _ := fieldKey(st.Addr); k {
@@ -759,6 +773,10 @@ func checkSplitHostIsNameOrIP(c *Ctx) {
 						if cl, isC := ex.Tuple.(*ssa.Call); isC && callName(cl) == "net/netip.ParseAddr" && cl.Call.Args[0] == host {
 							removed[edge{iff.Block(), succOnTruth(iff, truth)}] = true
 						}
+					}
+					// the same test in a helper: err := check(host); err == nil
+					if cl, isC := cm.X.(*ssa.Call); isC && len(cl.Call.Args) == 1 && cl.Call.Args[0] == host && isHostValidator(cl.Call.StaticCallee()) {
+						removed[edge{iff.Block(), succOnTruth(iff, truth)}] = true
 					}
 				}
 			}
@@ -1082,6 +1100,8 @@ func checkNoSynchronousDetachedExchange(c *Ctx, rel string) {
 // readerExitObservations: the points of ex at which it is known that the reader has returned (a channel in `done`) —
 // or, with ctxToo, that a context ended: a blocking select all of whose cases watch such a channel; in a select that
 // also has other cases (the reply wait), the first instruction of the body of such a case.
+var readerObsBusy = map[*ssa.Function]bool{}
+
 func readerExitObservations(ex *ssa.Function, done map[string]bool, ctxToo bool) map[ssa.Instruction]bool {
 	// observation points: a blocking select all of whose cases watch the reader's exit or a context; in a select
 	// that also has other cases (the reply wait), the body of such a case
@@ -1099,6 +1119,20 @@ func readerExitObservations(ex *ssa.Function, done map[string]bool, ctxToo bool)
 		return false
 	}
 	eachInstr(ex, func(in ssa.Instruction) {
+		if cl, ok := in.(*ssa.Call); ok {
+			// a NEW helper of the exchange none of whose returns is reachable without such an observation
+			if h := cl.Call.StaticCallee(); h != nil && h != ex && isNewHelper(h) && len(h.Blocks) > 0 && h.Pkg == ex.Pkg && !readerObsBusy[h] {
+				readerObsBusy[h] = true
+				obsH := readerExitObservations(h, done, ctxToo)
+				delete(readerObsBusy, h)
+				if len(obsH) > 0 {
+					if _, leaks := reachFromBlock(h.Blocks[0], isReturn, func(x ssa.Instruction) bool { return obsH[x] }); !leaks {
+						obs[in] = true
+					}
+				}
+			}
+			return
+		}
 		sel, ok := in.(*ssa.Select)
 		if !ok || !sel.Blocking {
 			return
@@ -1338,4 +1372,223 @@ func isLenOfSection(v, msg ssa.Value, sec string) bool {
 		return false
 	}
 	return fieldBase(ld.X) == msg
+}
+
+// isHostValidator: h(host string) error returns nil only for a host that is colon/bracket-free or a valid IP address
+// (no nil return is reachable once the edges "ContainsAny(host, set with ':') is false" and "ParseAddr(host) ok" are
+// removed).
+func isHostValidator(h *ssa.Function) bool {
+	if h == nil || len(h.Blocks) == 0 || !inMosdns(h) || len(h.Params) != 1 || h.Signature.Results().Len() != 1 || h.Signature.Results().At(0).Type().String() != "error" {
+		return false
+	}
+	host := ssa.Value(h.Params[0])
+	type edge struct{ from, to *ssa.BasicBlock }
+	removed := map[edge]bool{}
+	eachInstr(h, func(in ssa.Instruction) {
+		iff, ok := in.(*ssa.If)
+		if !ok {
+			return
+		}
+		for _, truth := range []bool{true, false} {
+			g := guard{Cond: iff.Cond, Truth: truth, If: iff}
+			if v, t := g.asBool(); !t {
+				if cl, isC := v.(*ssa.Call); isC && callName(cl) == "strings.ContainsAny" && cl.Call.Args[0] == host {
+					if cs, isK := cl.Call.Args[1].(*ssa.Const); isK && cs.Value != nil && strings.Contains(cs.Value.ExactString(), ":") {
+						removed[edge{iff.Block(), succOnTruth(iff, truth)}] = true
+					}
+				}
+			}
+			if cm, ok := g.asCmp(); ok && cm.Op == token.EQL && isNilConst(cm.Y) {
+				if ex, isE := cm.X.(*ssa.Extract); isE {
+					if cl, isC := ex.Tuple.(*ssa.Call); isC && callName(cl) == "net/netip.ParseAddr" && cl.Call.Args[0] == host {
+						removed[edge{iff.Block(), succOnTruth(iff, truth)}] = true
+					}
+				}
+			}
+		}
+	})
+	seen := map[*ssa.BasicBlock]bool{h.Blocks[0]: true}
+	work := []*ssa.BasicBlock{h.Blocks[0]}
+	for len(work) > 0 {
+		b := work[0]
+		work = work[1:]
+		if r, isRet := terminator(b).(*ssa.Return); isRet && len(r.Results) == 1 && isNilConst(r.Results[0]) {
+			return false
+		}
+		for _, sb := range b.Succs {
+			if removed[edge{b, sb}] || seen[sb] {
+				continue
+			}
+			seen[sb] = true
+			work = append(work, sb)
+		}
+	}
+	return true
+}
+
+// ---------------------------------------------------------------------------------------------------------------------
+// reply poll helpers: the "wait for the reader's exit, then look into my reply channel, restore my id" tail of an
+// exchange extracted into a NEW helper `h(ctx, respChan, q) (r *[]byte[, ok bool])` that the exchange calls on its
+// error exits.
+
+type pollSummary struct {
+	chanIdx, qIdx int  // positions of the reply channel and the caller's query among h.Params (-1: none)
+	restores      bool // every non-nil reply returned got Uint16(q) written at offset 0
+	pollsLast     bool // the last blocking or polling operation before every return is the non-blocking poll
+}
+
+var pollSummaryCache = map[*ssa.Function]*pollSummary{}
+
+func replyPollSummary(h *ssa.Function) *pollSummary {
+	if h == nil {
+		return nil
+	}
+	if v, ok := pollSummaryCache[h]; ok {
+		return v
+	}
+	pollSummaryCache[h] = nil
+	if !isNewHelper(h) {
+		return nil
+	}
+	sum := &pollSummary{chanIdx: -1, qIdx: -1}
+	for i, prm := range h.Params {
+		if isReplyChanType(prm.Type()) {
+			if sum.chanIdx >= 0 {
+				return nil
+			}
+			sum.chanIdx = i
+		}
+		if sl, ok := prm.Type().Underlying().(*types.Slice); ok {
+			if b, ok := sl.Elem().Underlying().(*types.Basic); ok && b.Kind() == types.Uint8 {
+				sum.qIdx = i
+			}
+		}
+	}
+	if sum.chanIdx < 0 {
+		return nil
+	}
+	ch := ssa.Value(h.Params[sum.chanIdx])
+	// every receive from a reply channel is from that parameter
+	okRecv, nPoll := true, 0
+	eachInstr(h, func(in ssa.Instruction) {
+		switch x := in.(type) {
+		case *ssa.UnOp:
+			if x.Op == token.ARROW && isReplyChanType(x.X.Type()) {
+				okRecv = false // a plain blocking receive is not a poll
+			}
+		case *ssa.Select:
+			for _, st := range x.States {
+				if st.Dir == types.RecvOnly && isReplyChanType(st.Chan.Type()) {
+					if st.Chan != ch || x.Blocking {
+						okRecv = false
+					} else {
+						nPoll++
+					}
+				}
+			}
+		}
+	})
+	if !okRecv || nPoll == 0 || len(withAnon(h)) != 1 {
+		return nil
+	}
+	isPoll := func(x ssa.Instruction) bool {
+		sel, ok := x.(*ssa.Select)
+		if !ok || sel.Blocking {
+			return false
+		}
+		for _, st := range sel.States {
+			if st.Dir == types.RecvOnly && st.Chan == ch {
+				return true
+			}
+		}
+		return false
+	}
+	isBlocking := func(x ssa.Instruction) bool {
+		if sel, ok := x.(*ssa.Select); ok && sel.Blocking {
+			return true
+		}
+		if ci, ok := x.(*ssa.Call); ok {
+			if sc := staticCallee(ci); sc != nil && sc.Name() == "writeQuery" {
+				return true
+			}
+			if ci.Call.IsInvoke() && ci.Call.Method.Name() == "Write" {
+				return true
+			}
+		}
+		return false
+	}
+	sum.restores, sum.pollsLast = true, true
+	for _, r := range returnsOf(h) {
+		rv := returnedValues(r)
+		if len(rv) == 0 {
+			return nil
+		}
+		if !polledBefore(r, isPoll, isBlocking) {
+			sum.pollsLast = false
+		}
+		if isNilConst(rv[0]) {
+			continue
+		}
+		// what is returned was received from the channel parameter
+		if src, ok := chanOfRecv(rv[0]); !ok || src != ch {
+			return nil
+		}
+		restored := false
+		eachInstr(h, func(x ssa.Instruction) {
+			pc, ok := x.(*ssa.Call)
+			if !ok || callName(pc) != binPut16 || !instrDominates(pc, r) || sum.qIdx < 0 {
+				return
+			}
+			ld, ok := pc.Call.Args[1].(*ssa.UnOp)
+			if !ok || ld.Op != token.MUL || ld.X != rv[0] {
+				return
+			}
+			if id, ok := pc.Call.Args[2].(*ssa.Call); ok && callName(id) == binU16 && id.Call.Args[1] == ssa.Value(h.Params[sum.qIdx]) {
+				restored = true
+			}
+		})
+		if !restored {
+			sum.restores = false
+		}
+	}
+	pollSummaryCache[h] = sum
+	return sum
+}
+
+// polledBefore: walking from r up its dominator chain, a poll is met before any blocking operation.
+func polledBefore(r ssa.Instruction, isPoll, isBlocking func(ssa.Instruction) bool) bool {
+	b := r.Block()
+	idx := idxInBlock(r) - 1
+	for b != nil {
+		for i := idx; i >= 0; i-- {
+			x := b.Instrs[i]
+			if isPoll(x) {
+				return true
+			}
+			if isBlocking(x) {
+				return false
+			}
+		}
+		b = b.Idom()
+		if b != nil {
+			idx = len(b.Instrs) - 1
+		}
+	}
+	return false
+}
+
+// pollHelperCall: v is the reply result of a call of a reply poll helper; returns the call and the summary.
+func pollHelperCall(v ssa.Value) (*ssa.Call, *pollSummary) {
+	if ex, ok := v.(*ssa.Extract); ok && ex.Index == 0 {
+		v = ex.Tuple
+	}
+	cl, ok := v.(*ssa.Call)
+	if !ok {
+		return nil, nil
+	}
+	sum := replyPollSummary(cl.Call.StaticCallee())
+	if sum == nil {
+		return nil, nil
+	}
+	return cl, sum
 }
